@@ -67,7 +67,7 @@ func main() {
 	tlimit := fs.Int("tlimit", 20000, "solver time limit per query (ms)")
 	instrBudget := fs.Int64("instrs", 0, "instruction budget per path")
 	debug.SetGCPercent(400)
-	debug.SetMemoryLimit(40 << 30)
+	debug.SetMemoryLimit(24 << 30)
 	cpuprof := fs.String("cpuprofile", "", "write cpu profile")
 	fs.Parse(os.Args[2:])
 	if *cpuprof != "" {
